@@ -20,6 +20,7 @@ type raceFinding struct {
 type csec struct {
 	mutex    string
 	acq, rel int // event indexes within the thread's trimmed list
+	read     bool
 }
 
 func overlaps(a, b string) bool {
@@ -126,7 +127,7 @@ func raceQuery(t1 []Event, ai int, t2 []Event, bi int) (string, string) {
 	trim := func(t []Event, keep int, prefix string) []ev {
 		var out []ev
 		for i, e := range t {
-			if e.Kind == "acq" || e.Kind == "rel" {
+			if e.Kind == "acq" || e.Kind == "rel" || e.Kind == "racq" || e.Kind == "rrel" {
 				out = append(out, ev{name: fmt.Sprintf("%s%d", prefix, len(out)), kind: e.Kind, mutex: fmt.Sprintf("m%d_%s", e.Obj, e.Path)})
 			} else if e.Kind == "ast" || e.Kind == "ald" {
 				out = append(out, ev{name: fmt.Sprintf("%s%d", prefix, len(out)), kind: e.Kind, mutex: fmt.Sprintf("a%d_%s", e.Obj, e.Path), seq: e.Seq})
@@ -155,11 +156,11 @@ func raceQuery(t1 []Event, ai int, t2 []Event, bi int) (string, string) {
 		var out []csec
 		open := map[string]int{}
 		for i, e := range es {
-			if e.kind == "acq" {
+			if e.kind == "acq" || e.kind == "racq" {
 				open[e.mutex] = i
-			} else if e.kind == "rel" {
+			} else if e.kind == "rel" || e.kind == "rrel" {
 				if a, ok := open[e.mutex]; ok {
-					out = append(out, csec{mutex: e.mutex, acq: a, rel: i})
+					out = append(out, csec{mutex: e.mutex, acq: a, rel: i, read: e.kind == "rrel"})
 					delete(open, e.mutex)
 				}
 			}
@@ -168,7 +169,7 @@ func raceQuery(t1 []Event, ai int, t2 []Event, bi int) (string, string) {
 	}
 	for _, c1 := range sections(e1) {
 		for _, c2 := range sections(e2) {
-			if c1.mutex == c2.mutex {
+			if c1.mutex == c2.mutex && !(c1.read && c2.read) {
 				fmt.Fprintf(&sb, "(assert (or (< %s %s) (< %s %s)))\n", e1[c1.rel].name, e2[c2.acq].name, e2[c2.rel].name, e1[c1.acq].name)
 			}
 		}
